@@ -323,8 +323,23 @@ type trEnv struct {
 	cname     string            // name of the byte parameter
 	sname     string            // name of the scanner parameter / receiver
 	strs      map[string]string // string parameters bound by inlining
+	states    map[string]string // stepFunc parameters bound by inlining and local stepFunc variables: name -> "st_x" ("" = not assigned yet)
+	void      bool              // inside a helper without result: a bare return is the end of the helper
 	noHelpers bool
 }
+
+func (e *trEnv) clone() *trEnv {
+	c := *e
+	if e.states != nil {
+		c.states = map[string]string{}
+		for k, v := range e.states {
+			c.states[k] = v
+		}
+	}
+	return &c
+}
+
+func (e *trEnv) hasLocals() bool { return len(e.states) > 0 }
 
 type st struct {
 	kind string // coq constructor application, already rendered, for leaves
@@ -351,8 +366,16 @@ func stmtList(l []st, ind int) string {
 	return "block [" + strings.Join(parts, ";\n"+pad+" ") + "]"
 }
 
-func (t *scannerTr) stateRef(e ast.Expr) (string, bool) {
+func (t *scannerTr) stateRef(e ast.Expr, env *trEnv) (string, bool) {
 	if id, ok := e.(*ast.Ident); ok {
+		if env != nil && env.states != nil {
+			if v, bound := env.states[id.Name]; bound {
+				if v == "" {
+					failf(e, "step variable %s is read before it is assigned on this path", id.Name)
+				}
+				return v, true
+			}
+		}
 		if _, ok := t.stateIdx[id.Name]; ok {
 			return "st_" + id.Name, true
 		}
@@ -360,10 +383,95 @@ func (t *scannerTr) stateRef(e ast.Expr) (string, bool) {
 	return "", false
 }
 
+// terminates: the statement list ends with a return on every path we can see syntactically
+func endsWithReturn(list []ast.Stmt) bool {
+	if len(list) == 0 {
+		return false
+	}
+	_, ok := list[len(list)-1].(*ast.ReturnStmt)
+	return ok
+}
+
+func cat(a, b []ast.Stmt) []ast.Stmt {
+	r := make([]ast.Stmt, 0, len(a)+len(b))
+	r = append(r, a...)
+	return append(r, b...)
+}
+
 func (t *scannerTr) block(list []ast.Stmt, env *trEnv) []st {
 	var out []st
 	for i := 0; i < len(list); i++ {
 		s := list[i]
+		// a local variable holding a step function: `var next stepFunc`, `next := stateX`, `next = stateX`
+		if ds, ok := s.(*ast.DeclStmt); ok {
+			if gd, ok := ds.Decl.(*ast.GenDecl); ok && gd.Tok == token.VAR && len(gd.Specs) == 1 {
+				if vs, ok := gd.Specs[0].(*ast.ValueSpec); ok && len(vs.Names) == 1 && vs.Type != nil && src(vs.Type) == "stepFunc" && len(vs.Values) <= 1 {
+					if env.states == nil {
+						env.states = map[string]string{}
+					}
+					val := ""
+					if len(vs.Values) == 1 {
+						r, ok := t.stateRef(vs.Values[0], env)
+						if !ok {
+							failf(s, "unsupported initial value of a step variable: %s", src(s))
+						}
+						val = r
+					}
+					env.states[vs.Names[0].Name] = val
+					continue
+				}
+			}
+			failf(s, "unsupported declaration: %s", src(s))
+		}
+		if as, ok := s.(*ast.AssignStmt); ok && len(as.Lhs) == 1 && len(as.Rhs) == 1 {
+			if id, ok := as.Lhs[0].(*ast.Ident); ok {
+				_, isLocal := env.states[id.Name]
+				if r, isState := t.stateRef(as.Rhs[0], env); isState && (as.Tok == token.DEFINE || (as.Tok == token.ASSIGN && isLocal)) {
+					if _, isParam := t.stateIdx[id.Name]; isParam {
+						failf(s, "assignment to a step function name: %s", src(s))
+					}
+					if env.states == nil {
+						env.states = map[string]string{}
+					}
+					env.states[id.Name] = r
+					continue
+				}
+			}
+		}
+		// with local step variables in scope the rest of the block is translated inside every branch
+		// (each branch has its own binding): `if`/`switch` followed by statements that read the variable
+		if env.hasLocals() && i+1 < len(list) {
+			rest := list[i+1:]
+			switch x := s.(type) {
+			case *ast.IfStmt:
+				if x.Init == nil {
+					c := t.cond(x.Cond, env)
+					thl := x.Body.List
+					if !endsWithReturn(thl) {
+						thl = cat(thl, rest)
+					}
+					th := t.block(thl, env.clone())
+					var ell []ast.Stmt
+					switch e := x.Else.(type) {
+					case nil:
+						ell = rest
+					case *ast.BlockStmt:
+						ell = e.List
+						if !endsWithReturn(ell) {
+							ell = cat(ell, rest)
+						}
+					case *ast.IfStmt:
+						ell = cat([]ast.Stmt{e}, rest)
+					default:
+						failf(s, "unsupported else")
+					}
+					el := t.block(ell, env.clone())
+					return append(out, st{isIf: true, cond: c, t: th, e: el})
+				}
+			case *ast.SwitchStmt:
+				return append(out, t.switchStmtK(x, env, rest)...)
+			}
+		}
 		// oracle pattern: n, je := s.readXWithJsc(); if je != nil {return je}; if n > 0 {s.curIndex += bytes.Index(n-1)}
 		if as, ok := s.(*ast.AssignStmt); ok && as.Tok == token.DEFINE && len(as.Lhs) == 2 && len(as.Rhs) == 1 {
 			if k, ok := t.oracleCall(as.Rhs[0], env); ok && i+2 < len(list) {
@@ -405,7 +513,7 @@ func (t *scannerTr) stmt(s ast.Stmt, env *trEnv) []st {
 		if len(x.Lhs) == 1 && len(x.Rhs) == 1 {
 			lhs := src(x.Lhs[0])
 			if lhs == sn+".step" && x.Tok == token.ASSIGN {
-				if r, ok := t.stateRef(x.Rhs[0]); ok {
+				if r, ok := t.stateRef(x.Rhs[0], env); ok {
 					return []st{leaf("SSetStep " + r)}
 				}
 				if src(x.Rhs[0]) == sn+".stepStack.Pop()" {
@@ -432,7 +540,7 @@ func (t *scannerTr) stmt(s ast.Stmt, env *trEnv) []st {
 		fn := src(call.Fun)
 		switch {
 		case fn == sn+".stepStack.Push" && len(call.Args) == 1:
-			if r, ok := t.stateRef(call.Args[0]); ok {
+			if r, ok := t.stateRef(call.Args[0], env); ok {
 				return []st{leaf("SPush " + r)}
 			}
 			if src(call.Args[0]) == sn+".step" {
@@ -442,6 +550,17 @@ func (t *scannerTr) stmt(s ast.Stmt, env *trEnv) []st {
 			return []st{leaf(fmt.Sprintf("SFound %s 0%%Z", t.event(call.Args[0])))}
 		case fn == sn+".foundAt" && len(call.Args) == 2:
 			return []st{leaf(fmt.Sprintf("SFound %s %s", t.event(call.Args[1]), t.curOffset(call.Args[0], env)))}
+		}
+		// a helper without result: s.m(args) or f(s, args)
+		if sel, ok := call.Fun.(*ast.SelectorExpr); ok && src(sel.X) == sn {
+			if fd := t.funcs[sel.Sel.Name]; fd != nil && fd.Recv != nil && fd.Type.Results == nil {
+				return t.inlineVoid(fd, call, env, true)
+			}
+		}
+		if id, ok := call.Fun.(*ast.Ident); ok {
+			if fd := t.funcs[id.Name]; fd != nil && fd.Recv == nil && fd.Type.Results == nil {
+				return t.inlineVoid(fd, call, env, false)
+			}
 		}
 		failf(s, "unsupported call statement: %s", src(s))
 	case *ast.IfStmt:
@@ -608,6 +727,12 @@ func orConds(cs []string) string {
 }
 
 func (t *scannerTr) switchStmt(x *ast.SwitchStmt, env *trEnv) []st {
+	return t.switchStmtK(x, env, nil)
+}
+
+// switchStmtK: the statements [rest] follow the switch and are translated at the end of every clause
+// that does not end with a return (and after the switch when no clause is taken)
+func (t *scannerTr) switchStmtK(x *ast.SwitchStmt, env *trEnv, rest []ast.Stmt) []st {
 	if x.Init != nil {
 		failf(x, "unsupported switch init")
 	}
@@ -631,7 +756,15 @@ func (t *scannerTr) switchStmt(x *ast.SwitchStmt, env *trEnv) []st {
 				failf(br, "unsupported branch statement in switch")
 			}
 		}
-		body := t.block(cc.Body, env)
+		bl := cc.Body
+		if rest != nil && !endsWithReturn(bl) {
+			bl = cat(bl, rest)
+		}
+		benv := env
+		if rest != nil {
+			benv = env.clone()
+		}
+		body := t.block(bl, benv)
 		if cc.List == nil {
 			def = body
 			hasDef = true
@@ -647,7 +780,9 @@ func (t *scannerTr) switchStmt(x *ast.SwitchStmt, env *trEnv) []st {
 		}
 		clauses = append(clauses, clause{orConds(cs), body})
 	}
-	_ = hasDef
+	if !hasDef && rest != nil {
+		def = t.block(rest, env.clone())
+	}
 	res := def
 	for i := len(clauses) - 1; i >= 0; i-- {
 		res = []st{{isIf: true, cond: clauses[i].cond, t: clauses[i].body, e: res}}
@@ -744,10 +879,40 @@ func (t *scannerTr) inline(fd *ast.FuncDecl, call *ast.CallExpr, env *trEnv, met
 	if t.depth > 4 {
 		failf(call, "helper inlining too deep")
 	}
-	if src(fd.Type.Results.List[0].Type) != "*jerr.JApiError" || len(fd.Type.Results.List) != 1 {
+	return t.inlineWith(fd, call, env, method, false)
+}
+
+// inlineVoid: a helper without result used as a statement; its body must not return early
+func (t *scannerTr) inlineVoid(fd *ast.FuncDecl, call *ast.CallExpr, env *trEnv, method bool) []st {
+	t.depth++
+	defer func() { t.depth-- }()
+	if t.depth > 4 {
+		failf(call, "helper inlining too deep")
+	}
+	var hasReturn func(list []ast.Stmt) bool
+	hasReturn = func(list []ast.Stmt) bool {
+		found := false
+		for _, s := range list {
+			ast.Inspect(s, func(n ast.Node) bool {
+				if _, ok := n.(*ast.ReturnStmt); ok {
+					found = true
+				}
+				return true
+			})
+		}
+		return found
+	}
+	if hasReturn(fd.Body.List) {
+		failf(call, "helper %s without result returns early: not supported", fd.Name.Name)
+	}
+	return t.inlineWith(fd, call, env, method, true)
+}
+
+func (t *scannerTr) inlineWith(fd *ast.FuncDecl, call *ast.CallExpr, env *trEnv, method bool, void bool) []st {
+	if !void && (fd.Type.Results == nil || len(fd.Type.Results.List) != 1 || src(fd.Type.Results.List[0].Type) != "*jerr.JApiError") {
 		failf(call, "helper %s has an unsupported result type", fd.Name.Name)
 	}
-	ne := &trEnv{cname: "_", sname: "_", strs: map[string]string{}}
+	ne := &trEnv{cname: "_", sname: "_", strs: map[string]string{}, void: void}
 	var params []*ast.Field
 	for _, p := range fd.Type.Params.List {
 		if len(p.Names) == 0 {
@@ -786,6 +951,15 @@ func (t *scannerTr) inline(fd *ast.FuncDecl, call *ast.CallExpr, env *trEnv, met
 			ne.cname = name
 		case "string":
 			ne.strs[name] = t.strArg(call.Args[i], env)
+		case "stepFunc":
+			r, ok := t.stateRef(call.Args[i], env)
+			if !ok {
+				failf(call, "unsupported step argument %s", src(call.Args[i]))
+			}
+			if ne.states == nil {
+				ne.states = map[string]string{}
+			}
+			ne.states[name] = r
 		default:
 			failf(call, "unsupported parameter type %s", src(p.Type))
 		}
